@@ -419,6 +419,15 @@ func raceSingle(vc *VC, ob *Obligation, cfg SolverCfg, fileBase string) *ObResul
 			return r2
 		}
 	}
+	if r.Status != "unsat" && r.Status != "sat" && os.Getenv("GOVC_NORETRY") == "" {
+		// a solver hiccup (machine load) must not become an alarm: one more attempt with a three-fold cap
+		cfg3 := cfg
+		cfg3.TimeoutMS = 3 * cfg.TimeoutMS
+		r3 := raceSingleOpt(vc, ob, cfg3, fileBase+".retry", false)
+		if r3.Status == "unsat" || r3.Status == "sat" {
+			return r3
+		}
+	}
 	return r
 }
 
